@@ -1485,7 +1485,7 @@ class Interp:
             return self.disj([self.equal(x, y, node) for y in c.s])
         if isinstance(c, SDict):
             x = self.force(x, node)
-            if is_concrete_scalar(x) or isinstance(x, tuple):
+            if is_concrete_scalar(x) or (isinstance(x, tuple) and all(is_concrete_scalar(y) for y in x)):
                 return self.dict_key(x) in c.d
             return self.disj([self.equal(x, y, node) for y in c.d])
         if isinstance(c, SADict):
